@@ -10,8 +10,13 @@ import (
 	"fmt"
 	"io"
 	"os"
+	"regexp"
+	"runtime"
 	"runtime/debug"
+	"sort"
 	"strconv"
+	"strings"
+	"time"
 
 	log "github.com/sirupsen/logrus"
 )
@@ -51,6 +56,7 @@ func main() {
 		os.Exit(2)
 	}
 	c := &ctx{tier: *tier, seed: *seed, r: &rng{*seed*0x2545F4914F6CDD1D + 0x1234567}, o: newOut(*out), replay: *replay, args: flag.Args()[1:]}
+	go hangWatchdog(c, flag.Arg(0))
 	defer func() {
 		if r := recover(); r != nil {
 			// keep what was observed so far (monitor hits included), then report the crash to the orchestrator
@@ -62,4 +68,99 @@ func main() {
 	}()
 	f(c)
 	c.o.close()
+}
+
+// hangWatchdog gives a verdict when a scenario stops making progress because goroutines of the code under test
+// are wedged on each other's mutexes (testing/synctest does not treat a mutex wait as durably blocked, so such a
+// deadlock shows up as a silent hang). Evidence standard as in C17: no trace/monitor row for 45 s, then two
+// whole-process goroutine dumps 5 s apart in which the SAME goroutines sit in sync lock-acquire frames under a
+// Cloak function. Anything else that hangs for 15 minutes ends the run without a verdict (exit 3).
+func hangWatchdog(c *ctx, scenario string) {
+	sleepers := 0
+	lockWaiters := func() map[string]string {
+		buf := make([]byte, 64<<20)
+		buf = buf[:runtime.Stack(buf, true)]
+		out := map[string]string{}
+		sleepers = strings.Count(string(buf), "\ntime.Sleep(")
+		re := regexp.MustCompile(`^goroutine (\d+) \[`)
+		for _, g := range strings.Split(string(buf), "\n\n") {
+			m := re.FindStringSubmatch(g)
+			if m == nil {
+				continue
+			}
+			iLock := -1
+			for _, lf := range []string{"sync.(*Mutex).Lock(", "sync.(*RWMutex).RLock(", "sync.(*RWMutex).Lock("} {
+				if i := strings.Index(g, lf); i >= 0 && (iLock < 0 || i < iLock) {
+					iLock = i
+				}
+			}
+			iCloak := strings.Index(g, "github.com/cbeuw/Cloak/internal/")
+			if iLock < 0 || iCloak < 0 || iLock > iCloak {
+				continue
+			}
+			var fs []string
+			for _, ln := range strings.Split(g, "\n") {
+				if strings.HasPrefix(ln, "sync.(") || strings.HasPrefix(ln, "github.com/cbeuw/Cloak/internal/") {
+					if k := strings.LastIndex(ln, "("); k > 0 {
+						ln = ln[:k]
+					}
+					fs = append(fs, strings.TrimPrefix(ln, "github.com/cbeuw/Cloak/internal/"))
+					if len(fs) >= 6 {
+						break
+					}
+				}
+			}
+			out[m[1]] = strings.Join(fs, " <- ")
+		}
+		return out
+	}
+	last, lastChange := -1, time.Now()
+	for {
+		time.Sleep(5 * time.Second)
+		p := c.o.nT + c.o.nV + c.o.stats["cases"]
+		if os.Getenv("VERIF_WATCHDOG_DEBUG") != "" {
+			fmt.Fprintf(os.Stderr, "watchdog: progress=%d last=%d since=%v\n", p, last, time.Since(lastChange))
+		}
+		if p != last {
+			last, lastChange = p, time.Now()
+			continue
+		}
+		if time.Since(lastChange) < 30*time.Second {
+			continue
+		}
+		w1 := lockWaiters()
+		if os.Getenv("VERIF_WATCHDOG_DEBUG") != "" {
+			fmt.Fprintf(os.Stderr, "watchdog: waiters=%v sleepers=%d\n", w1, sleepers)
+		}
+		if len(w1) >= 1 {
+			time.Sleep(5 * time.Second)
+			w2 := lockWaiters()
+			time.Sleep(5 * time.Second)
+			w3 := lockWaiters()
+			var same []string
+			for id, fr := range w1 {
+				if w2[id] == fr && w3[id] == fr {
+					same = append(same, "goroutine "+id+": "+fr)
+				}
+			}
+			// one goroutine alone counts only if nobody is asleep on the (possibly virtual) clock: inside a synctest bubble
+			// a sleeper holding the lock could not be woken while somebody waits on that lock
+			if (len(same) >= 2 || (len(same) == 1 && sleepers <= 1)) && c.o.nT+c.o.nV+c.o.stats["cases"] == last {
+				sort.Strings(same)
+				prop := scenario
+				if len(prop) > 3 {
+					prop = prop[:3]
+				}
+				c.o.V(prop+" deadlock: goroutines of the code under test wedged in lock acquisitions", map[string]any{"scenario": scenario,
+					"no_progress_for_s": int(time.Since(lastChange).Seconds()), "same_goroutines_in_three_dumps_over_10s": same})
+				c.o.close()
+				os.Exit(3)
+			}
+		}
+		if time.Since(lastChange) > 15*time.Minute {
+			c.o.N("watchdog: no progress for 15 minutes without the recognised deadlock pattern — no verdict")
+			c.o.close()
+			os.Exit(3)
+		}
+	}
 }
